@@ -197,8 +197,8 @@ def ensureA (ps : PS) (pid : Nat) : List Action × PS :=
 def allocA (ps : PS) : List Action × PS × Nat :=
   let pid := ps.pm.nextPage
   let pm := { ps.pm with nextPage := pid + 1 }
-  let (a, ps') := ensureA { ps with pm := pm } pid
-  (memA (.setPm pm) :: a, ps', pid)
+  let r := ensureA { ps with pm := pm } pid
+  (memA (.setPm pm) :: r.1, r.2, pid)
 
 /-- log scratch: handle state, file length and decodable length in fragments -/
 structure WS where
@@ -232,29 +232,32 @@ structure IdSt where
   len : Nat
 deriving Repr, Inhabited
 
+/-- first node ever: the node-table page is allocated and recorded in the meta page -/
+def startA (ps : PS) (id : IdSt) : List Action × PS × Nat :=
+  if id.start = 0 then
+    let r := allocA ps
+    let pm := { r.2.1.pm with i2eStart := r.2.2 }
+    (r.1 ++ [memA (.setPm pm)] ++ flushA pm ++ [memA (.setIdStart r.2.2)], { r.2.1 with pm := pm }, r.2.2)
+  else ([], ps, id.start)
+
 /-- `IdMap::apply_create_node_multi_label` for the next internal id (`iid = i2e_len`; the density
     and duplicate checks are decided by the callers) -/
 def nodeA (cfg : Cfg) (ps : PS) (id : IdSt) (ext : Nat) : List Action × PS × IdSt :=
-  let (a0, ps, start) :=
-    if id.start = 0 then
-      let (a, ps, p) := allocA ps
-      let pm := { ps.pm with i2eStart := p }
-      (a ++ [memA (.setPm pm)] ++ flushA pm ++ [memA (.setIdStart p)], { ps with pm := pm }, p)
-    else ([], ps, id.start)
-  let (a1, ps) := ensureA ps start          -- page = start + iid / 512; histories stay below 512 nodes
-  let a2 := [ioA (.pg (.slot id.len ext) start)] ++ (if cfg.syncSlot then [ioA .ps] else [])
-  let pm1 := { ps.pm with i2eLen := id.len + 1 }
+  let r0 := startA ps id
+  let r1 := ensureA r0.2.1 r0.2.2          -- page = start + iid / 512; histories stay below 512 nodes
+  let pm1 := { r1.2.pm with i2eLen := id.len + 1 }
   let pm2 := { pm1 with nextInt := id.len + 1 }
-  (a0 ++ a1 ++ a2 ++ [memA .incIdLen, memA (.setPm pm1)] ++ flushA pm1 ++ [memA (.setPm pm2)] ++ flushA pm2
+  (r0.1 ++ r1.1 ++ [ioA (.pg (.slot id.len ext) r0.2.2)] ++ (if cfg.syncSlot then [ioA .ps] else [])
+      ++ [memA .incIdLen, memA (.setPm pm1)] ++ flushA pm1 ++ [memA (.setPm pm2)] ++ flushA pm2
       ++ [memA (.pushExt ext)],
-   { ps with pm := pm2 }, { start := start, len := id.len + 1 })
+   { r1.2 with pm := pm2 }, { start := r0.2.2, len := id.len + 1 })
 
 def nodesA (cfg : Cfg) : PS → IdSt → List Nat → List Action × PS × IdSt
   | ps, id, [] => ([], ps, id)
   | ps, id, x :: xs =>
-    let (a, ps1, id1) := nodeA cfg ps id x
-    let (as, ps2, id2) := nodesA cfg ps1 id1 xs
-    (a ++ as, ps2, id2)
+    let r := nodeA cfg ps id x
+    let rs := nodesA cfg r.2.1 r.2.2 xs
+    (r.1 ++ rs.1, rs.2)
 
 /-! ## operations -/
 
@@ -276,7 +279,7 @@ def commitA (cfg : Cfg) (m : Mem) (vol : PImg) (w : List Frag) (tx : Tx) : List 
   let (aw, ws1) := appendsA cfg ws0 (txRecs txid m.idLen tx)
   let txStart := if cfg.tailTolerant && !ws0.checked then min ws0.len ws0.valid else ws0.len
   let sync : List Action := if ws1.isOpen then [.io .ws (if cfg.walRollback then [Step.wt txStart] else [])] else []
-  let (an, _, _) := nodesA cfg (m.ps vol) { start := m.idStart, len := m.idLen } tx.nodes
+  let an := (nodesA cfg (m.ps vol) { start := m.idStart, len := m.idLen } tx.nodes).1
   let pub := if tx.edges.isEmpty && tx.props.isEmpty then []
     else [memA (.pushRun { txid := txid, edges := tx.edges, props := tx.props })]
   [memA .bumpTxid] ++ aw ++ sync ++ an ++ pub ++ [memA .bumpTxid]
@@ -397,28 +400,48 @@ structure Plan where
   err : Option Err := none
 deriving Repr, Inhabited
 
-def planOps : List Rec → List Nat → Nat → Run → List Nat → Option Err × List Nat × Nat × Run × List Nat
-  | [], exts, len, run, acc => (none, exts, len, run, acc)
-  | .node ext iid :: rest, exts, len, run, acc =>
-    match (if ext = 0 then none else exts.idxOf? ext) with
+/-- `e2i.get(ext)`: the internal id of an external id -/
+def posOf (x : Nat) : List Nat → Option Nat
+  | [] => none
+  | y :: ys => if y = x then some 0 else (posOf x ys).map (· + 1)
+
+/-- the node-table part of replaying the operations of one transaction: a logged node that is
+    already mapped must be mapped to the logged id (then it is skipped), one that is not must get
+    the next dense id -/
+def planNodes : List Rec → List Nat → Nat → List Nat → Option Err × List Nat × Nat × List Nat
+  | [], exts, len, acc => (none, exts, len, acc)
+  | .node ext iid :: rest, exts, len, acc =>
+    match (if ext = 0 then none else posOf ext exts) with
     | some existing =>
-      if existing ≠ iid then (some .remapped, exts, len, run, acc) else planOps rest exts len run acc
+      if existing ≠ iid then (some .remapped, exts, len, acc) else planNodes rest exts len acc
     | none =>
-      if iid ≠ len then (some .nonDense, exts, len, run, acc)
-      else planOps rest (exts ++ [ext]) (len + 1) run (acc ++ [ext])
-  | .edge e :: rest, exts, len, run, acc => planOps rest exts len { run with edges := run.edges ++ [e] } acc
-  | .prop q :: rest, exts, len, run, acc => planOps rest exts len { run with props := run.props ++ [q] } acc
-  | _ :: rest, exts, len, run, acc => planOps rest exts len run acc
+      if iid ≠ len then (some .nonDense, exts, len, acc)
+      else planNodes rest (exts ++ [ext]) (len + 1) (acc ++ [ext])
+  | _ :: rest, exts, len, acc => planNodes rest exts len acc
+
+def edgesOf : List Rec → List Nat
+  | [] => []
+  | .edge e :: rest => e :: edgesOf rest
+  | _ :: rest => edgesOf rest
+
+def propsOf : List Rec → List Nat
+  | [] => []
+  | .prop q :: rest => q :: propsOf rest
+  | _ :: rest => propsOf rest
+
+/-- the memtable replay builds from the operations of one transaction -/
+def runOf (tx : CTx) : Run := { txid := tx.txid, edges := edgesOf tx.ops, props := propsOf tx.ops }
 
 def planTxs (ckpt : Nat) : List CTx → List Nat → Nat → Plan → Plan
   | [], _, _, pl => pl
   | tx :: rest, exts, len, pl =>
     if tx.txid ≤ ckpt then planTxs ckpt rest exts len pl else
-    let (err, exts', len', run, acc) := planOps tx.ops exts len { txid := tx.txid, edges := [], props := [] } []
+    let (err, exts', len', acc) := planNodes tx.ops exts len []
     let pl := { pl with apply := pl.apply ++ acc }
     match err with
     | some e => { pl with err := some e }
     | none =>
+      let run := runOf tx
       let pl := if run.edges.isEmpty && run.props.isEmpty then pl else { pl with runs := pl.runs ++ [run] }
       planTxs ckpt rest exts' len' pl
 
@@ -435,11 +458,22 @@ def mkIndexA (cfg : Cfg) (ps : PS) (catRoot : Nat) (entries : List Nat) (i : Nat
      ++ [memA (.catalog catRoot entries), ioA (.pg (.cat entries) catRoot)] ++ sync,
    ps, entries)
 
-/-- `GraphEngine::open` on the files as they are (`vol` = page file, `w` = log) -/
-def openA (cfg : Cfg) (vol : PImg) (w : List Frag) : List Action :=
+/-- what `GraphEngine::open` has in hand after `Pager::open`, `IdMap::load`, the catalog and the two
+    reserved indexes -/
+structure BootRes where
+  acts : List Action
+  ps : PS
+  catRoot : Nat
+  entries : List Nat
+  m0 : Mem
+deriving Repr, Inhabited
+
+/-- first half of `GraphEngine::open`: everything before the log is read.  An error carries the
+    actions performed before it. -/
+def bootA (cfg : Cfg) (vol : PImg) : Except (List Action × Err) BootRes :=
   -- Pager::open
   let fresh := vol.len = 0 || (cfg.freshZero && (vol.len < 2 || !vol.hdr.init))
-  if !fresh && !vol.hdr.init then [.fail .io] else
+  if !fresh && !vol.hdr.init then .error ([], .io) else
   let pm0 : Meta := if fresh then { init := true } else vol.hdr
   let a0 : List Action :=
     if fresh then [memA (.setPm pm0), ioA (.pg (.setLen 2) 2)] ++ flushA pm0 else [memA (.setPm pm0)]
@@ -462,33 +496,43 @@ def openA (cfg : Cfg) (vol : PImg) (w : List Frag) : List Action :=
       | none => .error .catBad
       | some es => .ok ([memA (.catalog pm0.catRoot es)], ps, pm0.catRoot, es)
   match catStep with
-  | .error e => a0 ++ [memA (.loaded m0), .fail e]
+  | .error e => .error (a0 ++ [memA (.loaded m0)], e)
   | .ok (a1, ps, catRoot, entries0) =>
     let (a2, ps, entries) := mkIndexA cfg ps catRoot entries0 0
     let (a3, ps, entries) := mkIndexA cfg ps catRoot entries 1
-    let boot := a0 ++ [memA (.loaded m0)] ++ a1 ++ a2 ++ a3
+    let acts := a0 ++ [memA (.loaded m0)] ++ a1 ++ a2 ++ a3
     -- HnswIndex::load reads both roots (those created just now are there)
     let created := entries.drop entries0.length
-    if !(entries.all (fun r => created.contains r || vol.idx.contains r)) then boot ++ [.fail .idxBad] else
-    -- log replay
-    match committed (readAll w) with
-    | .error e => boot ++ [.fail e]
-    | .ok txs =>
-      let sc := scan txs
-      -- CsrSegment::load for every manifest entry
-      let segs := sc.segs.map (fun k => (k, vol.segs.find? (fun s => s.key == k && s.complete)))
-      if segs.any (fun s => s.2.isNone) then boot ++ [.fail .segMissing] else
-      let m1 : Mem := { m0 with
-        pm := ps.pm, catRootM := catRoot, catEntries := entries,
-        segs := segs.map (fun s => (s.1, (s.2.map (·.edges)).getD [])),
-        epoch := sc.epoch, ckpt := sc.ckpt, proot := sc.proot, ptop := sc.ptop,
-        nextTxid := max (sc.maxTxid + 1) 1 }
-      let pl := planTxs sc.ckpt txs exts0 m0.idLen {}
-      let (an, _, _) := nodesA cfg ps { start := m0.idStart, len := m0.idLen } pl.apply
-      boot ++ [memA (.loaded m1)] ++ an ++
-        (match pl.err with
-         | some e => [.fail e]
-         | none => [memA (.setRuns pl.runs)])
+    if !(entries.all (fun r => created.contains r || vol.idx.contains r)) then .error (acts, .idxBad) else
+    .ok { acts := acts, ps := ps, catRoot := catRoot, entries := entries, m0 := m0 }
+
+/-- second half of `GraphEngine::open`: `replay_committed`, `scan_recovery_state`, the segments of
+    the manifest, `replay_graph_transactions` (which applies logged nodes to the node table) -/
+def replayA (cfg : Cfg) (vol : PImg) (w : List Frag) (b : BootRes) : List Action :=
+  match committed (readAll w) with
+  | .error e => [.fail e]
+  | .ok txs =>
+    let sc := scan txs
+    -- CsrSegment::load for every manifest entry
+    let segs := sc.segs.map (fun k => (k, vol.segs.find? (fun s => s.key == k && s.complete)))
+    if segs.any (fun s => s.2.isNone) then [.fail .segMissing] else
+    let m1 : Mem := { b.m0 with
+      pm := b.ps.pm, catRootM := b.catRoot, catEntries := b.entries,
+      segs := segs.map (fun s => (s.1, (s.2.map (·.edges)).getD [])),
+      epoch := sc.epoch, ckpt := sc.ckpt, proot := sc.proot, ptop := sc.ptop,
+      nextTxid := max (sc.maxTxid + 1) 1 }
+    let pl := planTxs sc.ckpt txs b.m0.exts b.m0.idLen {}
+    let an := (nodesA cfg b.ps { start := b.m0.idStart, len := b.m0.idLen } pl.apply).1
+    [memA (.loaded m1)] ++ an ++
+      (match pl.err with
+       | some e => [.fail e]
+       | none => [memA (.setRuns pl.runs)])
+
+/-- `GraphEngine::open` on the files as they are (`vol` = page file, `w` = log) -/
+def openA (cfg : Cfg) (vol : PImg) (w : List Frag) : List Action :=
+  match bootA cfg vol with
+  | .error (a, e) => a ++ [.fail e]
+  | .ok b => b.acts ++ replayA cfg vol w b
 
 /-! ## execution -/
 
